@@ -8,7 +8,7 @@ using namespace datasketches;
 namespace vf {
 
 const char* property_id() { return "C20"; }
-unsigned case_timeout_s() { return 200; }
+unsigned case_timeout_s() { return 40; }
 uint64_t num_cases(bool thorough) { return thorough ? 30000 : 1500; }
 void final_report() {}
 
